@@ -37,6 +37,8 @@ def oracle(meta, obs):
     get = lambda k: next((l[len(k) + 1:] for l in obs if l.startswith(k + "|")), None)
     r = get("result")
     calls = [l[5:] for l in obs if l.startswith("call|")]
+    if get("tlsflush") not in ("ok", None):
+        fails.append("the server waited for input while ciphertext it had written was not flushed to the transport (%s reads)" % get("tlsflush")[4:])
     if get("tlsrec") != "ok":
         fails.append("bytes after the greeting are not all TLS records: %s" % get("tlsrec"))
     try:
@@ -123,7 +125,7 @@ def run(ctx):
         for msg in fails:
             corr["oracle_failures"] += 1
             ctx.violation("specification oracle fails on the implementation's output: %s (case %s)" % (msg, cid), text, name="oracle")
-        a2 = [l for l in a if not l.startswith(("tlsrec|", "certs|"))]
+        a2 = [l for l in a if not l.startswith(("tlsrec|", "certs|", "tlsflush|"))]
         if a2 != m:
             corr["mismatches"] += 1
             if not fails:
